@@ -1,3 +1,6 @@
 pub mod engine;
+pub mod gen;
+pub mod mflat;
+pub mod spec;
 pub mod known;
 pub mod props;
